@@ -58,8 +58,17 @@ fn mk_host(idx: usize, cfg: &Cfg, dir: &str, ext: Extensions) -> Host {
     h
 }
 
-fn request(hosts: &[&[u8]]) -> Option<FatRequest> {
-    let mut b = Request::builder().uri("/").method("GET");
+fn request(hosts: &[&[u8]], authority: Option<&[u8]>) -> Option<FatRequest> {
+    let uri = match authority {
+        Some(a) => {
+            let mut u = b"http://".to_vec();
+            u.extend_from_slice(a);
+            u.extend_from_slice(b"/");
+            Uri::try_from(&u[..]).ok()?
+        }
+        None => Uri::from_static("/"),
+    };
+    let mut b = Request::builder().uri(uri).method("GET");
     for h in hosts {
         b = b.header("host", HeaderValue::from_bytes(h).ok()?);
     }
@@ -92,12 +101,14 @@ fn query(coll: &HostCollection, cfgs: &[Cfg], probes: &[Probe], q: &X) -> Result
     let l = q.as_l().ok_or_else(X::bad)?;
     let kind = l.first().and_then(X::as_n).ok_or_else(X::bad)?;
     Ok(match (kind, l.len()) {
-        (0, 3) | (6, 3) => {
+        (0, 3) | (6, 3) | (7, 4) => {
             let sni = opt_str(&l[1])?;
             let hh: Vec<&[u8]> = l[2].as_l().ok_or_else(X::bad)?.iter().map(|h| h.as_b().ok_or_else(X::bad)).collect::<Result<_, _>>()?;
-            let req = request(&hh).ok_or_else(ood)?;
+            // kind 7: the request's URI has an authority (as the URI of an HTTP/2 request has)
+            let authority = if kind == 7 { Some(l[3].as_b().ok_or_else(X::bad)?) } else { None };
+            let req = request(&hh, authority).ok_or_else(ood)?;
             let r = coll.get_from_request(&req, sni.as_deref());
-            if kind == 0 {
+            if kind == 0 || kind == 7 {
                 host_res(r)
             } else {
                 // the host choice of handle_connection: None => 409; else re-lookup by the host's own name, unwrap
